@@ -32,6 +32,7 @@ type Term struct {
 	Lo, Hi *big.Int
 	Lin    *Lin    // linear form (SInt), see strs.go
 	Parts  []*Term // concatenation pieces (SString)
+	FromBV *Term   // for (bv2int FromBV) terms: the unsigned bit-vector this integer came from
 	SubOf  *Term   // for (str.substr SubOf SubLo n) terms built by StrSubstr
 	SubLo, SubHi *Term
 }
@@ -238,6 +239,10 @@ func Eq(a, b *Term) *Term {
 	}
 	if a.S == b.S && a.Sort != SFP {
 		return TrueT
+	}
+	if a.FromBV != nil && b.FromBV != nil && a.FromBV.W == b.FromBV.W {
+		// bv2int is injective
+		return Eq(a.FromBV, b.FromBV)
 	}
 	if a.Sort == SFP {
 		return mk(SBool, 0, "(fp.eq %s %s)", a.S, b.S)
